@@ -21,6 +21,7 @@
                                         a key position that holds a container is refused by the
                                         KeyDeserializer (error) right after `tokens[key+1]`, which exists
                                         because the container has an End token -- this is what kvgood says.
+     C05_bintape_key_container_refused  the mechanism on a concrete tape (`a b c {x}`)
      C05_bde_tape_any_wf_tape           the walk theorem for ANY tape with tape_wf + payloads + kvgood, fuel
                                         len + shape_size + 2
      C05_bde_tape_walk_eq_ops2          the proof device: the walk over ops_tape equals the walk over ops2
@@ -70,6 +71,25 @@ Proof.
   exact parse_not_pairs_kvgood.
 Qed.
 
+(* the mechanism, on `a b c {x}` = Mixed a b c Array x End (the Array token lands in KEY position 4):
+   next_key_seed indexes tokens[5] (exists: the container has at least its End), the KeyDeserializer then
+   refuses the Array token whatever the visitor asks for, and the cursor it leaves behind (6, inside the
+   container, value index 5) WOULD hit the unchecked index if it were used again -- it never is *)
+Definition C05_key_container_input : bytes := [130;45; 130;45; 130;45; 3;0; 130;45; 4;0]%N.
+Definition C05_key_container_tape : tape :=
+  [TMixed; TToken 11650; TToken 11650; TToken 11650; TArray 6; TToken 11650; TEnd 4].
+Theorem C05_bintape_key_container_refused :
+  parse_opt C05_key_container_input = Ok C05_key_container_tape /\
+  tp_next_key C05_key_container_tape false (mkcur 4 7 3) = Ok (Some 4, mkcur 6 7 5) /\
+  (forall cfg h st, tp_dispatch cfg C05_key_container_tape true h 4 st = Err EC_DE) /\
+  tp_next_key C05_key_container_tape false (mkcur 6 7 5) = Panic 9206%N /\
+  (forall cfg sh, cfg_ok cfg -> noprop sh = true -> no_crash (deser_tape cfg sh C05_key_container_input)).
+Proof.
+  split; [vm_compute; reflexivity|]. split; [reflexivity|].
+  split; [intros cfg h st; apply doomed_dispatch; reflexivity|]. split; [reflexivity|].
+  intros cfg sh Hc Hs. apply C05_bde_tape_never_crashes_noprop; auto. repeat constructor.
+Qed.
+
 Theorem C05_bde_tape_any_wf_tape : ltac:(let t := type of deser_tokens_total in exact t).
 Proof. exact deser_tokens_total. Qed.
 Print Assumptions C05_bde_tape_any_wf_tape.
@@ -94,25 +114,26 @@ Qed.
    TextDeTape.deser_tape = TextDeserializer::from_*_tape: the mutual walk de / seq_all / seq_tup / twalk
    over the DOM reader operations of TextDeTape.v on the tape TextTape.parse returns (C17: tape_wf).
 
-     C05_tde_tape_no_panic            for EVERY input, shape (prop(..) included), decoder returning real bytes,
-                                      float parser / casts: never Panic (SITE_TOK 9100 `tokens[i]`, 9001/9002 of
-                                      finish) and never OOB -- with the entry point's own fuel ...
-     C05_tde_tape_no_panic_any_fuel   ... and with every other fuel
-     C05_tde_tape_terminates          the walk needs at most 2 * |tape| + 2 * shape_size + 4 levels of fuel:
-                                      with that much it returns Ok / Err for every input and shape (this is the
-                                      termination theorem; fuel is a device of the model, the Rust code has none)
-     C05_tde_tape_never_crashes_partial   with the entry point's OWN fuel tape_fuel = 2 * |tape| + shape_size + 8:
-                                      Ok / Err provided seq_extra t sh <= 4 (the tape has no Header token such
-                                      as `rgb {..}`, or seq(..)/tup(..) are nested at most 4 deep in the shape).
-         GAP (exact): the hypothesis seq_extra t sh <= 4.  It cannot be dropped for the model as it is:
-     C05_tde_tape_own_fuel_refuted    `a=rgb{{}}` with map(seq^16(ign)) returns OutOfFuel with tape_fuel
-                                      (deserialize_seq on a Header value yields the header token itself as
-                                      first element: two fuel levels per shape level, no progress in the tape).
-                                      MODEL artefact: the implementation returns the value (replayed, release and
-                                      debug, `de.text tape`); tape_fuel should be 2*|tape| + 2*shape_size + 8.
-     C05_tde_objreader_partial        the harness path objreader@k: Panic 9101 (the harness' own `expect`) exactly
-                                      when the root has no k-th field, otherwise as the root path
-     C05_tde_tape_any_wf_tape         the walk theorem for ANY tape_wf tape and any object-body range *)
+     C05_tde_tape_never_crashes       for EVERY input, every shape (prop(..) included), every decoder returning real
+                                      bytes, every float parser / casts: deser_tape on the parsed tape is Ok / Err --
+                                      no Panic (SITE_TOK 9100 `tokens[i]`, 9001 / 9002 of finish), no OOB, and no
+                                      OutOfFuel with the entry point's own fuel
+                                      tape_fuel = 2 * |tape| + 2 * shape_size + 8
+     C05_tde_tape_no_panic_any_fuel   never Panic / OOB with any other fuel either
+     C05_tde_tape_terminates          2 * |tape| + 2 * shape_size + 4 levels of fuel always suffice (fuel is a device
+                                      of the model; this is the termination theorem)
+     C05_tde_tape_old_fuel_refuted    FINDING about the model (repaired in TextDeTape.v on the lead's decision): the
+                                      original tape_fuel = 2 * |tape| + shape_size + 8 was too small: `a=rgb{{}}` with
+                                      map(seq^16(ign)) ran out of fuel (deserialize_seq on a Header value yields the
+                                      header token itself as first element: two fuel levels per shape level, no
+                                      progress in the tape).  The implementation returns the value (replayed,
+                                      `de.text tape`, release and debug) -- a model artefact, not a hang.
+     C05_tde_tape_old_fuel_partial    ... and when that original fuel does suffice: seq_extra t sh <= 4 (no Header
+                                      token in the tape, or seq / tup nested at most 4 deep)
+     C05_tde_objreader                the harness path objreader@k: Panic 9101 (the harness' own `expect`) exactly
+                                      when the root has no k-th field, otherwise Ok / Err
+     C05_tde_tape_any_wf_tape         the walk theorem for ANY tape_wf tape and any object-body range, with the
+                                      fine fuel bound 2 * tokens + shape_size + seq_extra + 4 *)
 From JV.proofs Require Import NoCrashTextDe NoCrashTapeWalksText.
 From JV Require Utf8 TextTok TextTape TapeWf TextDeCommon TextDeTape.
 
@@ -123,17 +144,17 @@ Proof. destruct o; cbn; try tauto. intros [H _]; discriminate. Qed.
 Lemma gd2_true_nocrash {A} (FF : Prop) (o : outcome A) : gd2 true FF (fun _ => True) o -> FF -> no_crash o.
 Proof. destruct o; cbn; try tauto. intros [H _]; discriminate. Qed.
 
-Theorem C05_tde_tape_no_panic : forall decode parse_f64 fo sh input,
+Theorem C05_tde_tape_never_crashes : forall decode parse_f64 fo sh input,
   (forall raw, wfl (Utf8.cow_bytes (decode raw))) ->
   match TextTape.parse input with
-  | Ok (t, _) => no_panic_oob (TextDeTape.deser_tape decode parse_f64 fo sh t)
+  | Ok (t, _) => no_crash (TextDeTape.deser_tape decode parse_f64 fo sh t)
   | _ => True
   end.
 Proof.
-  intros decode parse_f64 fo sh input Hdec. pose proof (deser_tape_text_parse decode parse_f64 fo sh input Hdec) as H.
-  destruct (TextTape.parse input) as [[t bom]| | | |]; auto. eapply gd2_true_nopanic; eauto.
+  intros decode parse_f64 fo sh input Hdec. pose proof (deser_tape_text_parse_ok decode parse_f64 fo sh input Hdec) as H.
+  destruct (TextTape.parse input) as [[t bom]| | | |]; auto. eapply gd2_true_nocrash; eauto.
 Qed.
-Print Assumptions C05_tde_tape_no_panic.
+Print Assumptions C05_tde_tape_never_crashes.
 
 Theorem C05_tde_tape_no_panic_any_fuel : forall decode parse_f64 fo sh input fuel,
   (forall raw, wfl (Utf8.cow_bytes (decode raw))) ->
@@ -162,34 +183,34 @@ Proof.
 Qed.
 Print Assumptions C05_tde_tape_terminates.
 
-(* full statement wanted:  ... => no_crash (deser_tape decode parse_f64 fo sh t)  without the seq_extra hypothesis;
-   false for the model's tape_fuel (C05_tde_tape_own_fuel_refuted) *)
-Theorem C05_tde_tape_never_crashes_partial : forall decode parse_f64 fo sh input,
-  (forall raw, wfl (Utf8.cow_bytes (decode raw))) ->
-  match TextTape.parse input with
-  | Ok (t, _) => seq_extra t sh <= 4 -> no_crash (TextDeTape.deser_tape decode parse_f64 fo sh t)
-  | _ => True
-  end.
-Proof.
-  intros decode parse_f64 fo sh input Hdec. pose proof (deser_tape_text_parse decode parse_f64 fo sh input Hdec) as H.
-  destruct (TextTape.parse input) as [[t bom]| | | |]; auto. intros Hs. eapply gd2_true_nocrash; eauto.
-Qed.
-Print Assumptions C05_tde_tape_never_crashes_partial.
-
-Theorem C05_tde_tape_own_fuel_refuted :
+Theorem C05_tde_tape_old_fuel_refuted :
   exists decode parse_f64 fo sh input t,
     (forall raw, wfl (Utf8.cow_bytes (decode raw))) /\
     TextTape.parse input = Ok (t, false) /\
-    TextDeTape.deser_tape decode parse_f64 fo sh t = OutOfFuel /\
-    is_ok (TextDeTape.de_root decode parse_f64 fo t 200 sh 0 (length t)) = true.
+    TextDeTape.de_root decode parse_f64 fo t (2 * length t + TextDeCommon.shape_size sh + 8) sh 0 (length t) = OutOfFuel /\
+    is_ok (TextDeTape.deser_tape decode parse_f64 fo sh t) = true.
 Proof.
   exists (fun raw => Utf8.Borrowed (filter (fun b => (b <? 256)%N) raw)), cex_pf, cex_fo, cex_shape, cex_input, cex_tape.
   split; [apply C05_tde_nonvacuous_hyp|]. repeat split; vm_compute; reflexivity.
 Qed.
 
-Theorem C05_tde_objreader_partial : ltac:(let t := type of deser_objreader_text_ok in exact t).
+Theorem C05_tde_tape_old_fuel_partial : forall decode parse_f64 fo sh input,
+  (forall raw, wfl (Utf8.cow_bytes (decode raw))) ->
+  match TextTape.parse input with
+  | Ok (t, _) => seq_extra t sh <= 4 ->
+      no_crash (TextDeTape.de_root decode parse_f64 fo t (2 * length t + TextDeCommon.shape_size sh + 8) sh 0 (length t))
+  | _ => True
+  end.
+Proof.
+  intros decode parse_f64 fo sh input Hdec. destruct (TextTape.parse input) as [[t bom]| | | |] eqn:E; auto.
+  intros Hs. eapply gd2_true_nocrash; [|exact I]. apply (de_root_old_fuel_ok decode parse_f64 fo sh t Hdec); [|exact Hs].
+  exact (JV.proofs.TextTapeGrammarProofs.parse_tape_wf input t bom E).
+Qed.
+Print Assumptions C05_tde_tape_old_fuel_partial.
+
+Theorem C05_tde_objreader : ltac:(let t := type of deser_objreader_text_ok in exact t).
 Proof. exact deser_objreader_text_ok. Qed.
-Print Assumptions C05_tde_objreader_partial.
+Print Assumptions C05_tde_objreader.
 
 Theorem C05_tde_tape_any_wf_tape : ltac:(let t := type of de_root_range_ok in exact t).
 Proof. exact de_root_range_ok. Qed.
